@@ -66,8 +66,8 @@ func (o *simpleAccessController) GetAuthorizedByRole(role string) ([]string, err
 	return o.allowedKeys[role], nil
 }
 
-func (o *simpleAccessController) CanAppend(e logac.LogEntry, _ identityprovider.Interface, _ accesscontroller.CanAppendAdditionalContext) error {
-	if err := accesscontroller.VerifyEntryIdentity(e); err != nil {
+func (o *simpleAccessController) CanAppend(e logac.LogEntry, p identityprovider.Interface, _ accesscontroller.CanAppendAdditionalContext) error {
+	if err := accesscontroller.VerifyEntryIdentity(e, p); err != nil {
 		return fmt.Errorf("not allowed to write entry: %w", err)
 	}
 
